@@ -192,7 +192,16 @@ def run(ctx):
         util = I["utility"].SklearnModelAccuracy(KNeighborsClassifier(1))
         prov, preq, simple = dsm.prov_arg(I, ds)
         kind = ["rows", "valperm", "valdup", "monotone", "rename", "batch", "symmetric"][it % 7]
-        case = dict(kind=kind, groups=ds["groups"], mode=ds["mode"], y_train=ds["y_train"], y_test=ds["y_test"], dist=ds["dist"].tolist())
+        if ds["m"] >= 2 and rng.random() < 0.35:
+            # two validation points with IDENTICAL features (hence identical distance columns) but, where possible, DIFFERENT labels: each counts on its own
+            j1, j2 = rng.sample(range(ds["m"]), 2)
+            ds["dist"][:, j2] = ds["dist"][:, j1]
+            others = [cl for cl in ds["classes"] if cl != ds["y_test"][j1]]
+            if others:
+                ds["y_test"][j2] = rng.choice(others)
+            ds["val_twins"] = [(j1, j2)]
+        case = dict(kind=kind, groups=ds["groups"], mode=ds["mode"], y_train=ds["y_train"], y_test=ds["y_test"], dist=ds["dist"].tolist(),
+                    validation_points_with_identical_features=ds.get("val_twins"))
         try:
             base = dsm.neighbor_scores(I, ds, util)
         except Exception as e:  # noqa
